@@ -41,7 +41,7 @@ theorem wf_addQuery (h : WfS a none) (hof : a.OwnerFree owner) : WfS (a.addQuery
   · rw [addQuery_qKQ]
     show WfIP _ (a.byQid ++ [(qid, a.nextKey)]) (a.all ++ [a.nextKey]) a.listCopy
     have hi := h.i
-    refine ⟨?_, ?_, ?_, ?_⟩
+    refine ⟨?_, ?_, ?_, ?_, ?_, ?_⟩
     · intro p hp
       rcases List.mem_append.mp hp with hp | hp
       · exact List.mem_append.mpr (Or.inl (hi.qidLive p hp))
@@ -58,6 +58,30 @@ theorem wf_addQuery (h : WfS a none) (hof : a.OwnerFree owner) : WfS (a.addQuery
     · intro l hl
       obtain ⟨h1, h2⟩ := hi.lcOk l hl
       exact ⟨h1, fun k hk => by rw [List.map_append]; exact List.mem_append.mpr (Or.inl (h2 k hk))⟩
+    · -- the fresh key is in none of the lists
+      have hnf : a.nextKey ∉ a.listCopy.flatten := by
+        intro hm
+        obtain ⟨l, hl, hkl⟩ := List.mem_flatten.mp hm
+        exact hfresh ((hi.lcOk l hl).2 _ hkl)
+      have hna : a.nextKey ∉ a.all := fun hm => hfresh (hi.allIdx _ hm)
+      have hd := hi.disj
+      rw [List.nodup_append] at hd ⊢
+      obtain ⟨d1, d2, d3⟩ := hd
+      refine ⟨?_, d2, ?_⟩
+      · rw [List.nodup_append]
+        exact ⟨d1, by simp, fun x hx y hy => by rw [List.mem_singleton.mp hy]; exact fun he => hna (he ▸ hx)⟩
+      · intro x hx y hy
+        rcases List.mem_append.mp hx with hx | hx
+        · exact d3 x hx y hy
+        · rw [List.mem_singleton.mp hx]; exact fun he => hnf (he ▸ hy)
+    · intro k hk
+      rw [List.map_append] at hk
+      rcases List.mem_append.mp hk with hk | hk
+      · rcases hi.nl k hk with h' | h'
+        · exact Or.inl (List.mem_append.mpr (Or.inl h'))
+        · exact Or.inr h'
+      · simp only [List.map_cons, List.map_nil, List.mem_singleton] at hk
+        exact Or.inl (List.mem_append.mpr (Or.inr (List.mem_singleton.mpr hk)))
   · rw [addQuery_qKC, addQuery_idx]
     have ht := h.t
     refine ⟨ht.btNodup, fun k hk => ?_, ht.poNodup, fun k hk => ?_⟩
@@ -175,6 +199,21 @@ theorem step_addQuery {d} (h : WfS a none) : StepS none (ownerId owner) d a (a.a
       rw [ho] at hx
       exact hx rfl
   debtAlive := fun _ ha _ => ha
+  prog := {
+    doneMono := fun _ h => h
+    lcRel := forall2_sub_refl _
+    allNew := fun k hk => by
+      rcases List.mem_append.mp hk with hk | hk
+      · exact Or.inl hk
+      · rw [List.mem_singleton.mp hk]; exact Or.inr (Nat.le_refl _)
+    keysLt := fun hl p hp => by
+      rw [addQuery_qKO] at hp
+      show p.1 < a.nextKey + 1
+      rcases List.mem_append.mp hp with hp | hp
+      · have := hl p hp; omega
+      · rw [List.mem_singleton.mp hp]; exact Nat.lt_succ_self _
+    ownKeep := fun _ p hp _ => by rw [addQuery_qKO]; exact List.mem_append.mpr (Or.inl hp)
+    done6 := fun _ p _ hpi hn => absurd (by rw [addQuery_idx]; exact List.mem_append.mpr (Or.inl hpi)) hn }
 
 theorem idx_addQuery : (a.addQuery qid owner).Idx a.nextKey := by
   unfold Sk.Idx; rw [addQuery_idx]; exact List.mem_append.mpr (Or.inr (List.mem_singleton.mpr rfl))
